@@ -10,7 +10,7 @@
 #include <unistd.h>
 #include "libwifi.h"
 #include "hx.h"
-unsigned char *g_in_ptr, *g_in_copy; size_t g_in_len;
+unsigned char *g_in_ptr, *g_in_copy, *g_in_base; size_t g_in_len, g_misalign = 0;
 size_t g_trail = 0; int g_prefill = 0xA5; static int g_precall = 0;
 
 /* ---------------------------------------------------------------- helpers */
@@ -123,6 +123,7 @@ int main(void) {
     setvbuf(stdout, NULL, _IOFBF, 1 << 20);
     if (getenv("LWV_TRAIL")) g_trail = (size_t) atol(getenv("LWV_TRAIL"));
     if (getenv("LWV_PREFILL")) g_prefill = atoi(getenv("LWV_PREFILL"));
+    if (getenv("LWV_MISALIGN")) g_misalign = (size_t) atol(getenv("LWV_MISALIGN")) % 16;
     if (getenv("LWV_PRECALL")) g_precall = atoi(getenv("LWV_PRECALL"));
     if (getenv("LWV_FILL")) { lwv_set_fill(atoi(getenv("LWV_FILL"))); lwv_arm(-1, 0); }
     while ((len = getline(&line, &cap, stdin)) > 0) {
